@@ -123,6 +123,8 @@ template <class A> static void view_ops(const std::string& cfg, const A& a) {
     // more repetitions than axes: axes are prepended
     { std::vector<long> lv; std::vector<size_t> ls; for (size_t i = 0; i <= D; i++) { long r = (i == 0 || i == D) ? 2 : 1; lv.push_back(r); ls.push_back((size_t)r); }
       emit("tile", cfg + "/rt_long", sh, O()("reps", JV(lv)).v, view::tile(a, ls));
+      { std::array<size_t, D + 1> la{}; for (size_t i = 0; i <= D; i++) la[i] = ls[i];
+        emit("tile", cfg + "/arr_long", sh, O()("reps", JV(lv)).v, view::tile(a, la)); }
       emit("tile", cfg + "/ct_long", sh, O()("reps", JV(lv)).v, view::tile(a, long_reps_ct(std::make_index_sequence<D + 1>{}))); }
     emit("repeat", cfg, sh, O()("repeats", JV({2}))("scalar", true)("axis", JV({0})).v, view::repeat(a, (size_t)2, 0));
     emit("roll", cfg, sh, O()("shift", JV({1}))("axis", L1(JV({-1})))("shift_int", true)("axis_int", true).v, view::roll(a, 1, -1));
